@@ -1,0 +1,45 @@
+// Copyright Suneido Software Corp. All rights reserved.
+// Governed by the MIT license found in the LICENSE file.
+
+//go:build verif
+
+package ixbuf
+
+import "unsafe"
+
+// Hooks for the external verification harness (build tag verif).
+// They only observe; they do not change behaviour.
+
+// VerifChunkSizes returns the number of slots of every chunk.
+func (ib *ixbuf) VerifChunkSizes() []int {
+	sizes := make([]int, len(ib.chunks))
+	for i, c := range ib.chunks {
+		sizes[i] = len(c)
+	}
+	return sizes
+}
+
+// VerifSharedChunks returns how many chunks of ib are the very same memory
+// (same first slot, same length) as a chunk of one of the inputs,
+// i.e. were passed through by Merge without copying.
+func (ib *ixbuf) VerifSharedChunks(inputs ...*ixbuf) int {
+	type id struct {
+		p *slot
+		n int
+	}
+	in := map[id]bool{}
+	for _, x := range inputs {
+		for _, c := range x.chunks {
+			if len(c) > 0 {
+				in[id{unsafe.SliceData(c), len(c)}] = true
+			}
+		}
+	}
+	n := 0
+	for _, c := range ib.chunks {
+		if len(c) > 0 && in[id{unsafe.SliceData(c), len(c)}] {
+			n++
+		}
+	}
+	return n
+}
